@@ -7,15 +7,23 @@ package rangeplugin
 //@ guard PluginState.Recordsv4 by Mutex|RWMutex
 // concurrency (C16): the lease table is whatever other goroutines left when the lock is acquired;
 // the postconditions describe the critical section (old() = state at acquisition)
-//@ protects PluginState.Mutex|RWMutex: mapc(self.Recordsv4) invariant (forall k string: has(self.Recordsv4, k) ==> (self.Recordsv4[k] != nil && allocated(self.Recordsv4[k]))) && rdistinct(self) && dbmirror(self)
+//@ protects PluginState.Mutex|RWMutex: mapc(self.Recordsv4), outst(self.allocator) invariant (forall k string: has(self.Recordsv4, k) ==> (self.Recordsv4[k] != nil && allocated(self.Recordsv4[k]))) && rdistinct(self) && dbmirror(self) && rbound(self)
 
 // every client has a record object of its own
 //@ pure func rdistinctm(m map[string]*Record) bool = forall k1 string: forall k2 string: (has(m, k1) && has(m, k2) && k1 != k2) ==> m[k1] != m[k2]
 //@ pure func rdistinct(p *PluginState) bool = rdistinctm(p.Recordsv4)
 
+// C02: every bound address is an outstanding block of the allocator's pool, and no two clients
+// share one (rkey: the 32-bit address of a record, whichever of the two byte forms it is kept in)
+//@ pure func rkey(r *Record) bv128 = zext(128, v4of(r.IP))
+//@ pure func rbound(p *PluginState) bool = v4pool(p.allocator) && \
+//@     (forall k string: has(p.Recordsv4, k) ==> (isv4(p.Recordsv4[k].IP) && outst(p.allocator)[rkey(p.Recordsv4[k])] && \
+//@         poollo(p.allocator) <= rkey(p.Recordsv4[k]) && rkey(p.Recordsv4[k]) <= poolhi(p.allocator))) && \
+//@     (forall k1 string: forall k2 string: (has(p.Recordsv4, k1) && has(p.Recordsv4, k2) && k1 != k2) ==> rkey(p.Recordsv4[k1]) != rkey(p.Recordsv4[k2]))
+
 // state invariant of a PluginState (established by setupRange, preserved by Handler4)
 //@ pure func rinv(p *PluginState) bool = p != nil && p.Recordsv4 != nil && p.allocator != nil && p.leasedb != nil && \
-//@     (forall k string: has(p.Recordsv4, k) ==> (p.Recordsv4[k] != nil && allocated(p.Recordsv4[k]))) && rdistinct(p)
+//@     (forall k string: has(p.Recordsv4, k) ==> (p.Recordsv4[k] != nil && allocated(p.Recordsv4[k]))) && rdistinct(p) && rbound(p)
 
 // Ghost view of the lease database (C03): one row per hardware-address text. saveIPAddress replaces
 // the row of its client when it succeeds; dbfail records that some write has failed (the handler
@@ -46,12 +54,12 @@ package rangeplugin
 //@   modifies everything
 // (the database driver cannot reach the map being built here)
 //@   preserves mapc(records)
-//@   ensures ret1 == nil ==> (ret0 != nil && (forall k string: has(ret0, k) ==> (ret0[k] != nil && allocated(ret0[k]))) && rdistinctm(ret0))
+//@   ensures ret1 == nil ==> (ret0 != nil && (forall k string: has(ret0, k) ==> (ret0[k] != nil && allocated(ret0[k]) && isv4(ret0[k].IP))) && rdistinctm(ret0))
 // (the ghost view of the database is by definition what the loader reads from it: trusted; that the
 // loader accepts every row the handler wrote is the separate obligation row-is-loadable)
 //@   ensures[trusted:table-is-the-database] ret1 == nil ==> dbmirrorm(ret0)
 //@   loop 1: invariant records != nil && db != nil && rows != nil
-//@   loop 1: invariant forall k string: has(records, k) ==> (records[k] != nil && allocated(records[k]))
+//@   loop 1: invariant forall k string: has(records, k) ==> (records[k] != nil && allocated(records[k]) && isv4(records[k].IP))
 //@   loop 1: invariant rdistinctm(records)
 //@   loop-terminates 1: rows.Next reports the end of a finite result set (database driver, start-up only)
 
@@ -60,11 +68,19 @@ package rangeplugin
 //@ func setupRange
 //@   modifies everything
 // (opening the database and loading the rows cannot reach the allocator just created)
-//@   preserves p.allocator, p.leasedb, alloc_ok
+//@   preserves elems(ipRangeStart), elems(ipRangeEnd), p.allocator, p.leasedb, alloc_ok, outst(p.allocator), poollo(p.allocator), poolhi(p.allocator), v4pool(p.allocator)
 //@   ensures[C02:start-up-re-marks-every-stored-lease] ret1 == nil ==> (ret0 != nil && alloc_ok - old(alloc_ok) == len(p.Recordsv4))
+//@   ensures[C02,internal:pool-is-the-configured-range] ret1 == nil ==> (poollo(p.allocator) == zext(128, v4of(ipRangeStart)) && poolhi(p.allocator) == zext(128, v4of(ipRangeEnd)))
 //@   loop 1: invariant p.allocator != nil
 //@   loop 1: invariant p.leasedb != nil
-//@   loop 1: invariant rinv(&p)
+//@   loop 1: invariant p.Recordsv4 != nil && (forall k string: has(p.Recordsv4, k) ==> (p.Recordsv4[k] != nil && allocated(p.Recordsv4[k]) && isv4(p.Recordsv4[k].IP))) && rdistinct(&p)
+// the pool is the configured range; every record visited so far is re-marked: its address is an
+// outstanding block of the pool, and the addresses re-marked so far are pairwise different
+//@   loop 1: invariant v4pool(p.allocator) && poollo(p.allocator) == zext(128, v4of(ipRangeStart)) && poolhi(p.allocator) == zext(128, v4of(ipRangeEnd))
+//@   loop 1: invariant[C02:re-marked-addresses-are-outstanding] forall k string: (has(p.Recordsv4, k) && iterseen(k)) ==> (outst(p.allocator)[rkey(p.Recordsv4[k])] && \
+//@       poollo(p.allocator) <= rkey(p.Recordsv4[k]) && rkey(p.Recordsv4[k]) <= poolhi(p.allocator))
+//@   loop 1: invariant[C02:re-marked-addresses-are-distinct] forall k1 string: forall k2 string: (has(p.Recordsv4, k1) && has(p.Recordsv4, k2) && iterseen(k1) && iterseen(k2) && k1 != k2) ==> \
+//@       rkey(p.Recordsv4[k1]) != rkey(p.Recordsv4[k2])
 //@   loop 1: invariant dbmirror(&p)
 //@   loop 1: invariant !held(mu(&p)) && !rheld(mu(&p))
 //@   loop 1: invariant p.Recordsv4 != nil
@@ -95,4 +111,8 @@ package rangeplugin
 // C03: the database holds exactly the bindings of the table, with their addresses and expiries
 //@   requires dbmirror(p)
 //@   ensures[C03:database-mirrors-the-bindings] dbmirror(p)
+// C02: what is offered or acknowledged lies inside the configured range, and bound addresses stay
+// pairwise different and outstanding in the allocator
+//@   ensures[C02:offered-address-is-in-the-range] ret0 != nil ==> (isv4(resp.YourIPAddr) && poollo(p.allocator) <= zext(128, v4of(resp.YourIPAddr)) && zext(128, v4of(resp.YourIPAddr)) <= poolhi(p.allocator))
+//@   ensures[C02:one-client-per-address] rbound(p)
 //@   ensures[C02:configured-lease-time] ret0 != nil ==> (has(resp.Options, 51) && resp.Options[51] == optenc(opt_dur(51, dround(p.LeaseTime, 1000000000))))
